@@ -217,7 +217,7 @@ def sched_conc(r, big):
     for v in sh:
         for s in sh[v][:pre]:
             steps.append(call(d, [part(v, s)]))
-    nth = r.randint(2, 4)
+    nth = r.randint(2, 4 if big else 3)
     items = []
     for v in sh:
         for s in sh[v][pre:]:
@@ -252,7 +252,7 @@ def sched_race(r, big):
     same validators (the t-th and the (t+1)-th partial racing)."""
     n, t = r.choice([(7, 5), (6, 4), (4, 3), (5, 3), (7, 5)])
     d = duty(1, r.choice(["att", "randao", "syncmsg", "sig", "exit"]))
-    nv = r.randint(1, 3)
+    nv = r.randint(1, 3 if big else 2)       # keeps the number of simultaneously floating store steps small
     sh = {v: r.sample(range(1, n + 1), n) for v in range(1, nv + 1)}
     steps = []
     for v in sh:
@@ -485,13 +485,13 @@ def run(tier, seed):
     log("[%s] %d schedules generated by TLC after %.0fs" % (PID, len(scheds), __import__("time").time() - o.t0))
     env = {"VERIF_REPS": "16" if thorough else "8"}
     # racing goroutines: more executions per schedule, so that a rare interleaving is seen again on re-execution
-    cenv = {"VERIF_REPS": "48" if thorough else "32"}
+    cenv = {"VERIF_REPS": "32" if thorough else "16"}
     ctl = control_schedules()
     vlib.conformance(o, FAMILY, TRACE, TCFG, "c07", ctl, tag="control", env=env)
     vlib.conformance(o, FAMILY, TRACE, TCFG, "c07", [from_tlc(s) for s in scheds], tag="tlcgen", env=env)
     vlib.conformance(o, FAMILY, TRACE, TCFG, "c07", random_schedules(seed, 2500 if thorough else 300, thorough, False),
                      tag="random", env=env)
-    conformance_racy(o, random_schedules(seed, 1500 if thorough else 120, thorough, True), "conc", cenv)
+    conformance_racy(o, random_schedules(seed, 600 if thorough else 120, thorough, True), "conc", cenv, chunk=50)
     tr = vlib.split_traces(vlib.read_ndjson(vlib.workdir(PID) + "/trace_control.ndjson"))
     vlib.binding_selftest(o, FAMILY, TRACE, TCFG, tr, mutators())
     return vlib.finish(o, "model_checking", RULE,
